@@ -44,7 +44,8 @@ class RepeaterStorage:
         """
         # nothing found (lookup without auto_create), nothing to patch
         if rpt is not None and len(patch):
-            self.__repeaters.update({rpt.id: rpt.patch(patch=patch)})
+            # records enter the storage by an auto-creating lookup only, saving patches the repeater it is given
+            rpt.patch(patch=patch)
         return rpt
 
     def match_attr(self, attr_name: str, match_value: any) -> Optional[Repeater]:
